@@ -322,12 +322,32 @@ func init() {
 	}}
 	checkDefs["C02"] = &checkDef{level: "model_checking", pkgs: []string{fsmPkg, airPkg}, run: func(cr *CheckRun) {
 		cr.owner = ownerC02
-		fsmCommon(cr, tierN(cr))
-		cj := []Job{ceremonyJob("c02n2", 2, 2, nil, "announcements and keyrings"),
-			ceremonyJob("c02n3", 3, 2, map[string]string{"round2": "1", "t2": "3"}, "two rounds on the same machines (t=2, then t=3)")}
+		g := fsmCommon(cr, tierN(cr))
+		// the announcements as genuine encodings of polynomials (same, one commitment more, another coefficient, one
+		// commitment less, another JSON layout) on every master-key await state of the graph
+		{
+			var pj []Job
+			var names []string
+			for a := range g.States {
+				if absState(a) == "state_dkg_master_key_await_confirmations" {
+					names = append(names, a)
+				}
+			}
+			sort.Strings(names)
+			for _, a := range names {
+				pj = append(pj, Job{Pkg: fsmPkg, Fn: "VF_FSMStep", Opts: defaultOpts(), Tag: "state=" + a + " event=event_dkg_master_key_confirm_received polynomial encodings",
+					Case:   "state=" + absState(a) + " event=event_dkg_master_key_confirm_received",
+					Params: map[string]string{"abs": a, "event": "event_dkg_master_key_confirm_received", "variant": "0", "maxn": strconv.Itoa(tierN(cr)), "polyshape": "1"}})
+			}
+			res := cr.Pool.Run(pj)
+			cr.absorb(pj, res)
+			cr.bounds["polynomial_announcements"] = fmt.Sprintf("%d master-key await states x {identical encoding, one more commitment, another coefficient, one commitment less, another JSON layout} with symbolic 2-byte commitments, in addition to opaque 0..1-byte values", len(pj))
+		}
+		cj := []Job{ceremonyJob("c02n2", 2, 2, map[string]string{"noleak": "1"}, "announcements and keyrings"),
+			ceremonyJob("c02n3", 3, 2, map[string]string{"round2": "1", "t2": "3", "noleak": "1"}, "two rounds on the same machines (t=2, then t=3)")}
 		nat := []map[string]int{{}, {}}
 		if cr.Tier == "thorough" {
-			cj = append(cj, ceremonyJob("c02n3t3", 3, 3, map[string]string{"round2": "1", "t2": "2"}, "two rounds on the same machines (t=3, then t=2)"))
+			cj = append(cj, ceremonyJob("c02n3t3", 3, 3, map[string]string{"round2": "1", "t2": "2", "noleak": "1"}, "two rounds on the same machines (t=3, then t=2)"))
 		}
 		runCeremony(cr, cj, nat)
 		cr.explanation = "Hot-node half of C02: on every master-key announcement edge of the fixpoint, reaching state_dkg_master_key_collected requires all announced keys equal and (ghost bit) all announced polynomials equal to the retained one. Airgapped half (contract level, harness VF_Air_Ceremony): n real machines run the four DKG steps from their SSA over the kyber Pedersen-DKG contracts; every machine announces the same group key and the same polynomial, the announced key is the constant term of the announced polynomial, the stored keyring holds that polynomial and exactly the share of DistKeyShare(); with two rounds on the same machines every round id maps to its own keyring (loadBLSKeyring and GetBLSKeyrings, LevelDB iterator buffer reuse modelled). The same scenarios run natively with real kyber on every run. That the n shares lie on one polynomial is kyber's DKG correctness (contract)."
